@@ -111,8 +111,7 @@ func (r *hRun) afterCrash(ctx *vk.Ctx, restart hCfg, op *hOp) error {
 	r.dropHandles()
 	r.tree = nil
 	r.pendingSave = nil
-	pruneTo := r.pruneTo
-	r.pruneTo = 0
+	pruneTo := r.pruneTo // stays set until the pruned prefix is reconciled below
 	r.db.limit = -1
 	r.db.dead = false
 	if restart.Fast != r.cfg.Fast {
@@ -149,6 +148,7 @@ func (r *hRun) afterCrash(ctx *vk.Ctx, restart hCfg, op *hOp) error {
 		}
 		ctx.ClassIf(drop > 0, "crash-in-prune-partial")
 	}
+	r.pruneTo = 0
 	if err := r.verifyWorking(nil, true); err != nil {
 		return fmt.Errorf("after restart: %v", err)
 	}
